@@ -2579,6 +2579,10 @@ impl CommandParser {
         while i < frames.len() {
             let score = Self::extract_string(&frames[i])?.parse::<f64>()
                 .map_err(|_| FerrousError::Command(CommandError::InvalidFloatValue))?;
+            if score.is_nan() {
+                // Not a number: refused before any pair is applied, as the direct command does
+                return Err(FerrousError::Command(CommandError::InvalidFloatValue));
+            }
             let member = Self::extract_bytes(&frames[i + 1])?;
             score_members.push((score, member));
             i += 2;
